@@ -183,14 +183,91 @@ def gen_specs(rng, tier, stack_small=False):
     return specs
 
 
+TRACK_ORDERS = {0: "none", 1: "init_charge", 2: "reindex_shuffle", 3: "reindex_status",
+                4: "reindex_particle_type", 5: "reindex_along_step_action",
+                6: "reindex_step_limit_action", 7: "reindex_both_action"}
+
+
+def gen_specs_extra(rng, tier):
+    """configurations aimed at classes of defect the basic runs cannot see:
+    - P3 (pair production: parents ABSORBED with two surviving secondaries) and P1 under
+      every track order (init_charge partitioning, re-indexing orders)
+    - P2 with a fixed step limiter commensurate with the geometry, so that the physics
+      limit chosen in pre-step equals the distance to the next boundary exactly
+    - P4: real Urban MSC along-step whose applicability ends part-way through a track"""
+    specs = []
+    nrep = 1 if tier == "quick" else 5
+    for rep in range(nrep):
+        # ---- P3 x track orders
+        orders = [1, 1, 0, 2, 3, 4, 5, 6, 7]
+        for k, order in enumerate(orders):
+            slots = [16, 7, 2, 64, 16, 7, 16, 64, 7][k]
+            prims = []
+            nprim = rng.choice([8, 16, 24])
+            nev = rng.choice([1, 2])
+            for i in range(nprim):
+                pos = [rng.uniform(-4.5, 4.5) for _ in range(3)]
+                E = rng.choice([10.0, 10 ** rng.uniform(0.5, 2.5)])
+                prims.append((0, E, pos, unit(rng), i % nev))
+            cutmode = rng.choice([2, 2, 1])
+            specs.append(dict(problem="P3", cutmode=cutmode, ecut=rng.choice([0.5, 2.0]), seed=rng.randrange(1, 10 ** 6),
+                              slots=slots, capacity=4096, stack=3.0, kill_at=-1, max_iters=20000,
+                              track_order=order, prims=prims))
+        # ---- P1 (parents survive) under non-default orders
+        for order in (1, rng.choice([2, 3, 4]), rng.choice([5, 6, 7])):
+            prims = [(0, 10 ** rng.uniform(0.5, 2.5), [rng.uniform(-4.5, 4.5) for _ in range(3)], unit(rng), 0)
+                     for _ in range(6)]
+            specs.append(dict(problem="P1", cutmode=rng.choice([0, 1]), ecut=2.0, seed=rng.randrange(1, 10 ** 6),
+                              slots=rng.choice([2, 7, 16]), capacity=4096, stack=3.0, kill_at=-1, max_iters=20000,
+                              track_order=order, prims=prims))
+        # ---- P2 with fixed step limiter 0.25 cm: electrons on the axes starting a whole
+        # number of limiter steps away from a sphere (radii 1, 3, 6)
+        for order in (0, 1):
+            prims = []
+            for i in range(10):
+                ax = rng.randrange(3)
+                sgn = rng.choice([-1.0, 1.0])
+                zone = rng.choice(["inner", "outer", "outer", "world"])
+                if zone == "inner":      # 0.5 MeV/cm: any energy survives
+                    x0 = 0.25 * rng.randrange(0, 4); d_out = True
+                    E = rng.uniform(2.0, 9.0)
+                elif zone == "outer":    # 5 MeV/cm: stay fixed-step limited (0.2*range > 0.25)
+                    nst = rng.choice([1, 2, 3])
+                    d_out = rng.random() < 0.7
+                    x0 = 6.0 - 0.25 * nst if d_out else 3.0 + 0.25 * nst
+                    E = rng.uniform(8.5, 9.8)
+                else:                    # world: towards the r=6 sphere
+                    x0 = 6.0 + 0.25 * rng.randrange(1, 8); d_out = False
+                    E = rng.uniform(2.0, 9.0)
+                pos = [0.0, 0.0, 0.0]; pos[ax] = sgn * x0
+                d = [0.0, 0.0, 0.0]; d[ax] = sgn * (1.0 if d_out else -1.0)
+                prims.append((3, E, pos, d, 0))
+            specs.append(dict(problem="P2", cutmode=0, ecut=1000.0, seed=rng.randrange(1, 10 ** 6),
+                              slots=rng.choice([4, 16]), capacity=4096, stack=1.0, kill_at=-1, max_iters=400,
+                              track_order=order, fixed_limit=0.25, prims=prims))
+        # ---- P4: Urban MSC, electrons/positrons slowing down below the MSC table
+        for order in (0, 1, rng.choice([3, 5, 6])):
+            prims = []
+            for i in range(8):
+                pid = rng.choice([0, 0, 1])
+                pos = [rng.uniform(-3.0, 3.0) for _ in range(3)]
+                E = rng.choice([1.0, 10 ** rng.uniform(-0.7, 0.5)])
+                prims.append((pid, E, pos, unit(rng), i % 2))
+            specs.append(dict(problem="P4", cutmode=0, ecut=1000.0, seed=rng.randrange(1, 10 ** 6),
+                              slots=rng.choice([2, 4, 16]), capacity=4096, stack=1.0, kill_at=-1, max_iters=400,
+                              track_order=order, msc=True, prims=prims))
+    return specs
+
+
 def spec_line(s):
     f = lambda x: float(x).hex()
     p = []
     for pid, E, pos, d, evt in s["prims"]:
         p.append("%d %s %s %s %d" % (pid, f(E), " ".join(f(x) for x in pos), " ".join(f(x) for x in d), evt))
-    return "run %s %d %s %d %d %d %s %d %d %d %s\n" % (
+    return "run %s %d %s %d %d %d %s %d %d %d %s %d %s\n" % (
         s["problem"], s["cutmode"], f(s["ecut"]), s["seed"], s["slots"], s["capacity"], f(s["stack"]),
-        s["kill_at"], s["max_iters"], len(s["prims"]), " ".join(p))
+        s["kill_at"], s["max_iters"], s.get("track_order", 0), f(s.get("fixed_limit", 0.0)),
+        len(s["prims"]), " ".join(p))
 
 
 def spec_key(s):
@@ -228,9 +305,10 @@ def ledger_check(run):
     """returns (list of violations (kind, what, detail), stats)"""
     viol = []
     stats = dict(events=0, tracks=0, complete_events=0, deposit=0.0, escaped=0.0, live=0.0,
-                 antiparticle_kills=0, cut_secondary_runs=0)
+                 antiparticle_kills=0, cut_secondary_runs=0, antiparticle_range_kills=0)
     bnd = run.act("geo-boundary")
     tcut = run.act("tracking-cut")
+    erange = run.act("eloss-range")
     tr = tracks_of(run)
     complete = run.exc is None and run.end is not None and run.end[2] == 0
     live_by = {}
@@ -250,6 +328,13 @@ def ledger_check(run):
             return "live", run.weight(pid, E)
         if last.action == bnd and last.post.vol < 0 and last.status == 4:
             return "escaped", run.weight(last.particle, last.post.E)
+        if last.action == erange and last.status == 4 and run.parts[last.particle][2]:
+            # an antiparticle stopped by continuous loss in a problem that gives it no
+            # at-rest process (P4's mock slowing-down): ElossApplier kills it and its 2mc^2
+            # is never deposited -- exactly the case excluded by hypothesis tevent_ok of
+            # the history theorems; booked separately instead of being called a leak
+            stats["antiparticle_range_kills"] += 1
+            return "dead-no-at-rest", 2 * run.parts[last.particle][1]
         return "dead", 0.0
 
     # per event
@@ -268,7 +353,7 @@ def ledger_check(run):
             kind, w = final_weight((e2, tk), rs)
             if kind == "escaped":
                 esc += w
-            elif kind == "live":
+            elif kind in ("live", "dead-no-at-rest"):
                 liv += w
             scale += abs(w)
         stats["deposit"] += dep; stats["escaped"] += esc; stats["live"] += liv
@@ -334,7 +419,8 @@ def stream_check(run):
     viol = []
     st = dict(records=0, pairs=0, boundary_steps=0, volume_changes=0, zero_steps=0,
               zero_steps_stopped=0, failure_records=0, failure_zero_with_displacement=0,
-              located=0, max_disp_excess=0.0)
+              located=0, max_disp_excess=0.0, boundary_at_limit=0, steps_below_msc_table=0)
+    msc = bool(run.spec.get("msc"))
     bnd = run.act("geo-boundary")
     tcut = run.act("tracking-cut")
     fail = run.act("physics-failure")
@@ -378,7 +464,11 @@ def stream_check(run):
                     if not (sig and r.pre.E != 0 and r.step == 0):   # already reported above
                         add("step-shorter-than-displacement",
                             "%s: step length %r < displacement %r" % (name, r.step, d), [r], sig)
-            if not errored and r.limit == r.limit and r.step > r.limit:
+            if r.action == bnd and r.step == r.limit:
+                st["boundary_at_limit"] += 1
+            if msc and r.pre.E < 0.1:
+                st["steps_below_msc_table"] += 1
+            if not errored and r.limit == r.limit and r.step > r.limit * (1 + 1e-12):
                 add("step-exceeds-limit", "%s: step length %r > physics limit %r chosen in pre-step" % (name, r.step, r.limit), [r])
             if r.status < 2 or (r.prestatus >= 0 and r.status < r.prestatus):
                 add("status-reverted", "%s: status after pre-step %d, after the step %d" % (name, r.prestatus, r.status), [r])
@@ -393,7 +483,9 @@ def stream_check(run):
             # reported volume contains reported position (fresh initialisation)
             if not errored and r.step > 1e-5:
                 st["located"] += 1
-                if r.vmid >= -1 and r.vmid != r.pre.vol:
+                # (with MSC the post point is laterally displaced: the chord midpoint need
+                # not lie in the pre-step volume, so only the end points are located)
+                if not msc and r.vmid >= -1 and r.vmid != r.pre.vol:
                     add("pre-volume-wrong", "%s: step midpoint is in volume %d, reported pre-step volume %d" % (name, r.vmid, r.pre.vol), [r])
                 if r.action != bnd and r.vpost >= -1 and r.vpost != r.post.vol:
                     add("post-volume-wrong", "%s: post point is in volume %d, reported %d" % (name, r.vpost, r.post.vol), [r])
